@@ -108,8 +108,26 @@ package store
 //@   guarded_by flushRate, lastFlush, flushNotice : rateLk read rateLk.R
 //@   guarded_by open, running, err : stateLk read stateLk.R
 
-//@ func (s *Store) Close() (err error)  property C16
+// Store invariant on its control channels.
+//@ type Store
+//@   invariant @channels self.open ==> self.closing != nil && !closed(self.closing) && self.closed != nil
+//@   invariant @index-open self.open ==> !oncedone(self.index.closeOnce)
+
+// Close (C02, C03, C17): stop the flusher and wait for it, flush the primary, then close
+// (= flush and release) index, primary, file cache and freelist on every path; a second Close
+// returns nil and does nothing.
+//@ func (s *Store) Close() (err error)  property C02 C03 C17
 //@   exclusive Close is the shutdown of the store and is not among the concurrent operations C16 lists
+//@   preserves s
+//@   requires @record-size-limit forall b index.BucketIndex :: (b in s.index.nextPool) ==> len(s.index.nextPool[b]) < (1 << 31) - 8
+//@   modifies s.open, s.running, chan(s.closing), chan(s.closed), fp(FC), fp(INDEXCLOSE), s.index.$pending, s.index.$closed, s.index.Primary.$pending, s.index.Primary.$closed, s.index.Primary.$failed, s.freelist.blockPool, s.freelist.outstandingWork, s.freelist.$pending, s.freelist.file.$open
+//@   assert at before call (primary.PrimaryStorage).Flush#0: @C17-flusher-stopped old(s.running) ==> closed(s.closing) && waited(s.closed)
+//@   assert at before call freelist.FreeList.Close#0: @D1-index-before-freelist !s.index.$pending || event("call:index.Index.Close") == 1
+//@   ensures @C02-idempotent old(!s.open) ==> err == nil && event("call:index.Index.Close") == 0 && event("call:(primary.PrimaryStorage).Close") == 0 && event("call:freelist.FreeList.Close") == 0 && event("call:(primary.PrimaryStorage).Flush") == 0
+//@   ensures @C17-all-released old(s.open) ==> s.index.$closed && s.index.Primary.$closed && !s.freelist.file.$open && s.fileCache.cache == nil
+//@   ensures @C17-all-reached old(s.open) ==> event("call:index.Index.Close") == 1 && event("call:(primary.PrimaryStorage).Close") == 1 && event("call:freelist.FreeList.Close") == 1
+//@   ensures @C02-everything-flushed old(s.open) && err == nil && s.err == nil ==> !s.index.$pending && !s.index.Primary.$pending && !s.freelist.$pending
+//@   ensures @closed-flag !s.open && (old(s.open) ==> !s.running)
 
 // ---------------------------------------------------------------------------
 // Flush ordering D1 (DESIGN.md §4 C03): primary, then index, then freelist. A freed location
